@@ -92,6 +92,41 @@ def wf_order(k: int) -> type:
     ])
 
 
+def wf_typed_state(k: int) -> type:
+    """like ``order``, on a TYPED state model: completed items are appended in place to a default-factory list (the field is
+    never assigned), a counter is assigned, a third field is never touched"""
+    from vmc.events import TypedState
+    from workflows import Context
+
+    async def start(self, ctx, ev, inv):  # noqa: ANN001
+        for i in range(k):
+            ctx.send_event(Work(uid=i))
+        return None
+
+    async def work(self, ctx, ev, inv):  # noqa: ANN001
+        await gate(f"w{ev.uid}")
+        async with ctx.store.edit_state() as st:
+            st.items.append(ev.uid)
+            st.seen[f"u{ev.uid}"] = len(st.items)
+            if ev.uid:
+                st.n = st.n + 1
+        return Done(uid=ev.uid)
+
+    async def fin(self, ctx, ev, inv):  # noqa: ANN001
+        r = ctx.collect_events(ev, [Done] * k)
+        if r is None:
+            return None
+        st = await ctx.store.get_state()
+        return StopEvent(result=[list(st.items), dict(st.seen), st.n, st.note])
+
+    T = Context[TypedState]
+    return make_workflow("TypedStateWf", [
+        make_step("start", [StartEvent], [Work, None], start, ctx_type=T),
+        make_step("work", [Work], [Done], work, num_workers=1, ctx_type=T),
+        make_step("fin", [Done], [StopEvent, None], fin, num_workers=1, ctx_type=T),
+    ])
+
+
 # ------------------------------------------------------------------------------------ oracle
 def _store_dump(hd: Any) -> Any:
     try:
@@ -243,6 +278,8 @@ def specs(tier: str) -> list[Spec]:
     sp.append(Spec("fan(2,2)/2x", {"family": "fan", "resumes": 2}, lambda: wf_fan(2, 2), resume=True, resume_count=2, max_dev=(4 if q else None)))
     # order-sensitive single-worker queue
     sp.append(Spec("order(3)", {"family": "order"}, lambda: wf_order(3), resume=True))
+    sp.append(Spec("typed_state(3)", {"family": "typed_state"}, lambda: wf_typed_state(3), resume=True))
+    sp.append(Spec("typed_state(2)/2x", {"family": "typed_state", "resumes": 2}, lambda: wf_typed_state(2), resume=True, resume_count=2))
     # the client looks at the running context (ctx.to_dict()) once or twice before it pauses the run
     sp.append(Spec("fan(3,2)/peek", {"family": "fan", "peeks": 1}, lambda: wf_fan(3, 2), resume=True, peeks=1, max_dev=(3 if q else 5)))
     sp.append(Spec("fan(2,2)/peek", {"family": "fan", "peeks": 1}, lambda: wf_fan(2, 2), resume=True, peeks=1, max_dev=(4 if q else None)))
